@@ -239,6 +239,10 @@ fn run_task(cell: &Cell, p: &TraceParams) -> (drive::RunOutcome, Vec<(String, St
                 continue;
             }
             for (s, slot) in sent.iter().zip(&publ.probes) {
+                if local.len() > 200 {
+                    // enough discrepancies to name every failing clause of this task
+                    break;
+                }
                 n += 1;
                 match probe_of(slot) {
                     Some(probe) => local.extend(check_datagram(cell, p, s, probe, r)),
@@ -369,7 +373,7 @@ pub fn run(args: &Args) -> i32 {
             let mut g = findings.lock().unwrap();
             for (k, d) in local {
                 let key = format!("{k}@{}", cell.name().split('/').take(5).collect::<Vec<_>>().join("/"));
-                let e = g.entry(key.clone()).or_insert(Finding {
+                let e = g.entry(key.clone()).or_insert_with(|| Finding {
                     key,
                     detail: format!("[{} size={} tos={} pattern={} init_seq={}] {d}", cell.name(), p.packet_size, p.tos, p.pattern, p.initial_sequence),
                     replay: json!({"check":"C11","cell":cell.name(),"cell_index":crate::c01::cell_index(cell),"params":crate::c01::params_json(p)}),
